@@ -225,6 +225,11 @@ def add_malformed(ctx, scripts):
 
 def run_c07(ctx, replay=None):
     global gen
+    rp = json.load(open(replay)) if replay else None
+    if rp and rp.get("family") == "contactapi":
+        import contactapi
+        contactapi.run_part(ctx, rp)
+        return finish(ctx, "C07")
     g0 = gen
 
     def gen2(ctx, prop):
@@ -234,6 +239,10 @@ def run_c07(ctx, replay=None):
         run_prop(ctx, "C07", replay)
     finally:
         gen = g0
+    if not replay:
+        # the same lifecycle through the RPC handlers of a real in-process service (MonContactApi.tla)
+        import contactapi
+        contactapi.run_part(ctx)
     return finish(ctx, "C07")
 
 
